@@ -57,6 +57,7 @@ theorem ObsFin_closed (C : Nat → Nat) : Closed (ObsFin C) where
   hookLate := fun e pid hook h => h
   hookEarly := fun e id hook h => h
   level := fun e l h => h
+  hops := fun e l h => h
   obs := by
     intro e o ho h q
     simp only [addObs_obs]
@@ -98,7 +99,7 @@ theorem segBody_obsfin (C : Nat → Nat) (now : Nat) (e : Eff) (pid tag : Nat) (
   have h0 : ObsFin C (segStart now e pid tag p) := by
     unfold segStart
     intro q
-    simp only [setProc_obs]
+    simp only [setCur_obs, setProc_obs]
     split
     · simp only [addObs_obs]; rw [finCount_cons_other _ _ q (by intro t pid; simp)]; exact h q
     · exact h q
